@@ -1,0 +1,14 @@
+//go:build verif
+
+package graph
+
+// Contracts for the verification machinery in /verif (see /verif/DESIGN.md).
+// This file contains only comments; it is compiled to nothing.
+
+//@ prop C13
+
+// Index.Value is a function of the index and the position (the index is immutable after
+// construction); it panics for positions out of range.
+//@ func (*Index).Value
+//@   trusted
+//@   pure
